@@ -86,7 +86,7 @@ func lemmaBackoffMono(T, i, j int) {
 //@   after `switch err := fn(timeout); err {` use lemmaBackoffMono(T, i+1, ite(N >= i+1, N, i+1))
 //@   after `switch err := fn(timeout); err {` assert[try-starts-on-schedule] sends() == s0 + i + 1 ==> sentAt() == t0 + specBackoff(T, i) - T
 
-//@ define pktOK(p) = p != nil && (p.ClientIPAddr == nil || len(p.ClientIPAddr) == 4) && (p.YourIPAddr == nil || len(p.YourIPAddr) == 4) && (p.ServerIPAddr == nil || len(p.ServerIPAddr) == 4) && (p.GatewayIPAddr == nil || len(p.GatewayIPAddr) == 4)
+//@ define pktOK(p) = p != nil && ipOK(p.ClientIPAddr) && ipOK(p.YourIPAddr) && ipOK(p.ServerIPAddr) && ipOK(p.GatewayIPAddr)
 
 // send: a transaction id that is pending is refused and nothing is transmitted; otherwise the id is registered and the
 // encoding of msg is handed to the connection once, for dest, without any virtual time passing
@@ -165,3 +165,102 @@ func lemmaBackoffMono(T, i, j int) {
 //@   after `c.pendingMu.Unlock()` assert[decoded] chsends() == S0 + 1 ==> SpecAcceptV4(string(b[:n])) && lastChanValue() == msg && string(msg.TransactionID[:]) == string(b[:n])[4:8]
 //@   after `c.pendingMu.Unlock()` assert[reply-for-us] chsends() == S0 + 1 ==> int(msg.OpCode) == 2 && (c.ifaceHWAddr != nil ==> string(c.ifaceHWAddr) == string(msg.ClientHWAddr))
 //@   after `c.pendingMu.Unlock()` assert[own-channel] chsends() == S0 + 1 ==> has(c.pending, msg.TransactionID) && lastChan() == c.pending[msg.TransactionID].ch
+
+// ---------- lease acquisition (property C13): what is asked, what may complete it, what comes back ----------
+//
+// The three matchers of the package, each verified against its body: their free variables are the values captured when
+// they were made.
+//@ define mt4(p) = ite(p.Options[53] != nil && len(p.Options[53]) == 1, int(p.Options[53][0]), 0)
+
+// IsMessageType(t, tt...): the packet's message type is t or one of tt
+//@ contract IsMessageType$1
+//@   requires p != nil
+//@   ensures[type] result == (mt4(p) == int(t) || !(forall i int :: {tt[i]} 0 <= i && i < len(tt) ==> mt4(p) != int(tt[i])))
+//@   loop 0 invariant[before] rangeval == tt && (forall j int :: {tt[j]} 0 <= j && j <= rangeindex ==> mt4(p) != int(tt[j])) && mt4(p) != int(t)
+
+// IsCorrectServer(s): the packet's server identifier (a well-formed option 54) is the address s; a packet without one
+// only matches the absent address
+//@ contract IsCorrectServer$1
+//@   requires p != nil
+//@   ensures[server] p.Options[54] != nil && len(p.Options[54]) == 4 && len(s) == 4 ==> result == (string(p.Options[54]) == string(s))
+//@   ensures[other-length] p.Options[54] != nil && len(p.Options[54]) == 4 && len(s) != 4 && len(s) != 16 ==> !result
+//@   ensures[absent] p.Options[54] == nil || len(p.Options[54]) != 4 ==> result == (len(s) == 0)
+
+// IsAll(ms...): every one of ms accepts the packet
+//@ contract IsAll$1
+//@   requires p != nil
+//@   ensures[all] result == (forall i int :: {ms[i]} 0 <= i && i < len(ms) ==> specMatch(ms[i], p))
+//@   loop 0 invariant[before] rangeval == ms && (forall j int :: {ms[j]} 0 <= j && j <= rangeindex ==> specMatch(ms[j], p))
+
+// net.IPv4zero (what a new packet's address fields are) is assumed to hold an IPv4 address: a precondition of the
+// exchange functions, since the variable is the standard library's and could be reassigned
+//@ define envOK() = ipOK(net.IPv4zero)
+//@ define leaseOK(lease) = lease.ACK != nil && lease.Offer != nil && ipOK(lease.ACK.YourIPAddr)
+
+//@ define relReq() = callresult("dhcpv4.NewReleaseFromACK", 0)
+
+// Release (RFC 2131 4.4.4): at most one datagram; it is the encoding of the RELEASE built from the lease's ACK (type 7,
+// ciaddr = the leased address, the lease's hardware address, the ACK's server identifier: NewReleaseFromACK's contract)
+// and goes to port 67 of the address in the ACK's server identifier option. (The datagram is stated as the result of
+// ToBytes on that packet - whose layout is ToBytes' own contract, V4Wire - because the address literal is built between
+// the encoding and the transmission.)
+//@ contract (*Client).Release
+//@   requires c != nil && c.conn != nil && c.logger != nil && envOK() && len(modifiers) == 0 && (lease != nil ==> leaseOK(lease))
+//@   let s0 = sends()
+//@   ensures[no-lease] lease == nil ==> result != nil && sends() == s0
+//@   ensures[at-most-one] sends() <= s0 + 1 && (result == nil ==> sends() == s0 + 1)
+//@   ensures[release] sends() == s0 + 1 ==> lastSent() == string(callresult("(*dhcpv4.DHCPv4).ToBytes", 0)) && callarg("(*dhcpv4.DHCPv4).ToBytes", 0) == relReq() && msgType(relReq(), 7) && relReq().ClientIPAddr == lease.ACK.YourIPAddr && relReq().ClientHWAddr == lease.ACK.ClientHWAddr && int(relReq().OpCode) == 1
+//@   ensures[server-id] sends() == s0 + 1 && lease.ACK.Options[54] != nil ==> has(relReq().Options, 54) && relReq().Options[54] == lease.ACK.Options[54]
+//@   ensures[to-server] sends() == s0 + 1 ==> typeIs(lastSentTo(), *net.UDPAddr) && lastSentTo().(*net.UDPAddr).IP == net.IP(lease.ACK.Options[54]) && lastSentTo().(*net.UDPAddr).Port == 67
+
+// The matcher handed to SendAndRead by Renew and RequestFromOffer: IsAll(IsCorrectServer(sid), IsMessageType(ACK, NAK))
+// with sid the server identifier of the given offer (structural: which closures, with which captured values; what each
+// closure computes from them is its own contract above). m is the function value, offer the packet whose server
+// identifier is meant.
+//@ define ackNakFrom(m, offer) = closureOf(m, "IsAll$1") && len(captured(m, "IsAll$1", "ms")) == 2 && closureOf(captured(m, "IsAll$1", "ms")[0], "IsCorrectServer$1") && closureOf(captured(m, "IsAll$1", "ms")[1], "IsMessageType$1") && int(captured(captured(m, "IsAll$1", "ms")[1], "IsMessageType$1", "t")) == 5 && len(captured(captured(m, "IsAll$1", "ms")[1], "IsMessageType$1", "tt")) == 1 && int(captured(captured(m, "IsAll$1", "ms")[1], "IsMessageType$1", "tt")[0]) == 6 && sidIs(captured(captured(m, "IsAll$1", "ms")[0], "IsCorrectServer$1", "s"), offer)
+//@ define sidIs(s, offer) = (offer.Options[54] != nil && len(offer.Options[54]) == 4 ==> len(s) == 4 && string(s) == string(offer.Options[54])) && (offer.Options[54] == nil || len(offer.Options[54]) != 4 ==> s == nil)
+//@ define sarResp() = callresult("(*Client).SendAndRead", 0)
+//@ define sarErr() = callresult("(*Client).SendAndRead", 1)
+//@ define sarDone() = called("(*Client).SendAndRead") && callresult("(*Client).SendAndRead", 1) == nil
+//@ define sarReq() = callarg("(*Client).SendAndRead", 3)
+//@ define sarMatch() = callarg("(*Client).SendAndRead", 4)
+
+// Renew (RFC 2131 4.3.2, RENEWING): the packet handed to the exchange is a DHCPREQUEST with ciaddr = the leased address,
+// the lease's hardware address, unicast, without requested-address and server-identifier options; only an ACK or NAK
+// bearing the offer's server identifier can complete it; a NAK gives *ErrNak with that NAK and the lease's offer, an ACK
+// a lease made of the lease's offer and that very ACK.
+//@ contract (*Client).Renew
+//@   inlines dhcpv4.NewRenewFromAck, dhcpv4.New, dhcpv4.newDHCPv4 unroll 8, dhcpv4.PrependModifiers, dhcpv4.WithMessageType, dhcpv4.WithOption, dhcpv4.OptMessageType, dhcpv4.OptMaxMessageSize, IsAll, IsCorrectServer, IsMessageType
+//@   requires c != nil && c.conn != nil && c.logger != nil && c.pending != nil && ctx != nil && int(c.timeout) >= 0 && envOK() && len(modifiers) == 0 && (lease != nil ==> leaseOK(lease))
+//@   modifies c.pending
+//@   callsite (*Client).SendAndRead assert[request] msgType(arg3, 3) && arg3.ClientIPAddr == lease.ACK.YourIPAddr && arg3.ClientHWAddr == lease.ACK.ClientHWAddr && int(arg3.Flags) < 32768 && !has(arg3.Options, 50) && !has(arg3.Options, 54) && string(arg3.TransactionID[:]) == string(lease.ACK.TransactionID[:])
+//@   callsite (*Client).SendAndRead assert[matcher] ackNakFrom(arg4, lease.Offer)
+//@   ensures[no-lease] lease == nil ==> result1 != nil && sends() == old(sends())
+//@   ensures[ack] result1 == nil ==> result0 != nil && result0.Offer == lease.Offer && result0.ACK == sarResp() && sarDone() && mt4(sarResp()) != 6 && specMatch(sarMatch(), sarResp())
+//@   ensures[nak] sarDone() && mt4(sarResp()) == 6 ==> result0 == nil && typeIs(result1, *ErrNak) && result1.(*ErrNak).Offer == lease.Offer && result1.(*ErrNak).Nak == sarResp()
+//@   ensures[failed] !sarDone() ==> result0 == nil && result1 != nil
+
+// RequestFromOffer (RFC 2131 4.3.2, SELECTING): the packet handed to the exchange is a DHCPREQUEST answering the offer
+// (same transaction id, hardware type and address, flags) whose requested address is the offered address and whose
+// server identifier is the offer's (the very value); only an ACK or NAK bearing that server identifier can complete it;
+// a NAK gives *ErrNak with that NAK and the offer, an ACK a lease made of the offer and that very ACK.
+//@ contract (*Client).RequestFromOffer
+//@   inlines dhcpv4.NewRequestFromOffer, dhcpv4.New, dhcpv4.newDHCPv4 unroll 9, dhcpv4.PrependModifiers, dhcpv4.WithMessageType, dhcpv4.WithOption, dhcpv4.OptMessageType, dhcpv4.OptRequestedIPAddress, dhcpv4.OptMaxMessageSize, IsAll, IsCorrectServer, IsMessageType
+//@   requires c != nil && c.conn != nil && c.logger != nil && c.pending != nil && ctx != nil && int(c.timeout) >= 0 && envOK() && len(modifiers) == 0 && offer != nil && ipOK(offer.ClientIPAddr) && len(offer.YourIPAddr) == 4
+//@   modifies c.pending
+//@   callsite (*Client).SendAndRead assert[request] msgType(arg3, 3) && replyOf(arg3, offer) && has(arg3.Options, 50) && string(arg3.Options[50]) == string(offer.YourIPAddr) && (offer.Options[54] != nil ==> has(arg3.Options, 54) && arg3.Options[54] == offer.Options[54])
+//@   callsite (*Client).SendAndRead assert[matcher] ackNakFrom(arg4, offer)
+//@   ensures[ack] result1 == nil ==> result0 != nil && result0.Offer == offer && result0.ACK == sarResp() && sarDone() && mt4(sarResp()) != 6 && specMatch(sarMatch(), sarResp())
+//@   ensures[nak] sarDone() && mt4(sarResp()) == 6 ==> result0 == nil && typeIs(result1, *ErrNak) && result1.(*ErrNak).Offer == offer && result1.(*ErrNak).Nak == sarResp()
+//@   ensures[failed] !sarDone() ==> result0 == nil && result1 != nil
+
+// DiscoverOffer: the packet handed to the exchange is a DHCPDISCOVER with the client's hardware address; only an OFFER
+// can complete it and that very packet is returned
+//@ contract (*Client).DiscoverOffer
+//@   inlines dhcpv4.NewDiscovery, dhcpv4.New, dhcpv4.newDHCPv4 unroll 6, dhcpv4.PrependModifiers, dhcpv4.WithMessageType, dhcpv4.WithOption, dhcpv4.OptMessageType, dhcpv4.OptMaxMessageSize, IsMessageType
+//@   requires c != nil && c.conn != nil && c.logger != nil && c.pending != nil && ctx != nil && int(c.timeout) >= 0 && envOK() && len(modifiers) == 0
+//@   modifies c.pending
+//@   callsite (*Client).SendAndRead assert[request] msgType(arg3, 1) && int(arg3.OpCode) == 1 && arg3.ClientHWAddr == c.ifaceHWAddr
+//@   callsite (*Client).SendAndRead assert[matcher] closureOf(arg4, "IsMessageType$1") && int(captured(arg4, "IsMessageType$1", "t")) == 2 && len(captured(arg4, "IsMessageType$1", "tt")) == 0
+//@   ensures[offer] err == nil ==> offer == sarResp() && sarDone() && specMatch(sarMatch(), offer)
+//@   ensures[failed] !sarDone() ==> offer == nil && err != nil
